@@ -445,6 +445,10 @@ def run(chk, w):
     chk.floor("counted_id_lists", ncnt, 8)
 
     # ---- FREE
+    # ---- NULL ids
+    from .. import nullparam
+    nullparam.run(chk, P, "C17-NULL", set(w.api), lambda f_: f_.relfile.startswith("src/highlevel/bidib_highlevel_getter"), 30)
+
     chk.rule("C17-FREE", "no free function frees the same field twice on one path")
     nfree = 0
     for name in sorted(w.api):
